@@ -33,6 +33,23 @@ def correspondence(ctx):
 def oracle(ctx, budget=1, replay=None, hints=None):
     progs = _variants(ctx, 120 * budget)
     r = FL.oracle(ctx, PID, [O.check_C02], dict(), 0, replay=replay, want_touch=False, extra_progs=progs)
+    # search guided by the tracking discrepancy: a stale tracked point, given a region of its own, makes a clear path be filtered
+    for p in progs[:60 * budget]:
+        steps, exc = O.simulate(p)
+        if exc:
+            continue
+        q = O.stale_tracking_witness(p, steps)
+        r['evaluations'] += 1
+        if q is None:
+            continue
+        steps2, exc2 = O.simulate(q)
+        O.episodes(steps2)
+        if exc2 is None and not O.touches_region(steps2):
+            fs = O.check_C02(q, steps2)
+            if fs and len(r['failures']) < 10:
+                f = fs[0]
+                f['signature'] = 'C02:stale-tracking'
+                r['failures'].append(f)
     # known finding D18: G92 X/Y/Z breaks tracking, so a clear path is no longer forwarded verbatim
     w = FL.corpus_prog(dict(name='D18', props=['C02'], regions=[['rect', 'a', 10, 10, 20, 20]],
                             lines=['G28', 'G1 X30 Y30 F3000', 'G92 X0 Y0', 'G1 X45 Y45', 'G1 X50 Y50']))
